@@ -206,6 +206,25 @@ func c08Eval(c c08Case) (ok bool, sig, detail string) {
 		all := regionAtoms(region)
 		n := len(all)
 		lo, hi := modBounds(mod, n)
+		// the complement of a region reads the same residues in reverse order on the other strand
+		{
+			plain := c
+			plain.Comp = false
+			base := regionAtoms(buildRegion(plain))
+			var cm []ratom
+			if p, msg := engine.Safely(func() { cm = regionAtoms(buildRegion(plain).Complement()) }); p {
+				return false, "panic", "Complement panics: " + msg
+			}
+			ok := len(cm) == len(base)
+			for i := range base {
+				if ok && (cm[len(base)-1-i].pos != base[i].pos || cm[len(base)-1-i].rev == base[i].rev) {
+					ok = false
+				}
+			}
+			if !ok {
+				return false, "region-complement", fmt.Sprintf("(%v).Complement() = %v covers %v, want the mirror of %v", buildRegion(plain), buildRegion(plain).Complement(), cm, base)
+			}
+		}
 		var res gts.Region
 		if p, msg := engine.Safely(func() { res = region.Resize(mod) }); p {
 			return false, "panic", fmt.Sprintf("Resize(%v, %s) panics: %s", region, mod, msg)
